@@ -70,6 +70,12 @@ def worker(job):
     a = make_multi(it, oa, ab, D, flags, ha, lead_axis)
     b = make_multi(it, ob, bb, D, flags, hb, lead_axis)
     problems = []
+    # the operands as constructed (a broken constructor / from_vector / concat is reported as such)
+    for name, obj, blocks0, hist in (("left", a, ab, ha), ("right", b, bb, hb)):
+        if set(obj.keys()) != set(types) or any(not same_elems(obj[t], blocks0[t]) for t in types if t in obj):
+            problems.append(("history", "the %s operand built by history '%s' does not hold the blocks it was given" % (name, hist), None))
+    if problems:
+        return dict(cfg=dict(D=D, types=[list(t) for t in types], order_a=[list(t) for t in oa], order_b=[list(t) for t in ob], history_a=ha, history_b=hb, leading_axes=nl, op=op), problems=problems)
     cfg = dict(D=D, types=[list(t) for t in types], order_a=[list(t) for t in oa], order_b=[list(t) for t in ob], history_a=ha, history_b=hb, leading_axes=nl, op=op)
     if op in ("add", "sub"):
         res = attempt(lambda: a + b if op == "add" else a - b)
